@@ -569,7 +569,6 @@ func c06R1(p *Prog, r *Report) {
 	// followed through single-definition locals to the call that produced it, so the key names
 	// the producing API rather than a variable.
 	assertReviewed := map[string]string{
-		"httpproxy.(readBufferedNetioConnReaderFrom).ReadFrom:recv.field:netio.Conn.(io.ReaderFrom)": "this wrapper type is only constructed (newReadBufferedNetioConn) when the inner connection implements io.ReaderFrom",
 		"service.(*TCPRelay).handleConn:call (*net.conn).RemoteAddr.(*net.TCPAddr)":                  "RemoteAddr of a *net.TCPConn is always a *net.TCPAddr",
 	}
 	nTA := 0
@@ -634,6 +633,12 @@ func c06R1(p *Prog, r *Report) {
 								r.OK(rule, key, p.posStr(ta.Pos()), "library fact: "+fact.why)
 								return true
 							}
+						}
+						// the receiver's type is a wrapper that is only built when the wrapped value
+						// passed the same assertion with comma-ok: decided, not reviewed
+						if why, okw := c06WrapperBuiltOnlyWhen(p, pkg, ctx, ta); okw {
+							r.OK(rule, key, p.posStr(ta.Pos()), why)
+							return true
 						}
 						reason, okr := assertReviewed[key]
 						r.Check(okr, rule, key, p.posStr(ta.Pos()), "reviewed: "+reason, "a single-value type assertion panics when the dynamic type differs, and this one is not a reviewed site")
@@ -1718,4 +1723,86 @@ var c06SocketFacts = map[string]c06SocketFact{
 	"call (*net.ListenConfig).ListenPacket.(*net.UDPConn)":                              {"udp", "net.ListenConfig.ListenPacket on a udp* network returns a *net.UDPConn"},
 	"call (*github.com/database64128/tfo-go/v2.Dialer).DialContext.(*net.TCPConn)":      {"tcp", "tfo.Dialer.DialContext on a tcp* network returns a *net.TCPConn"},
 	"call (*net.Dialer).DialContext.(*net.UDPConn)":                                     {"udp", "net.Dialer.DialContext on a udp* network returns a *net.UDPConn"},
+}
+
+// c06WrapperBuiltOnlyWhen: the assertion x.f.(T) sits in a method of a wrapper type W whose field
+// (through embedding) f holds the wrapped value, and every composite literal of W in the package
+// is built on the ok edge of `_, ok := v.(T)` for the very v that the literal (or the embedded
+// literal it is given) stores in f. Then f.(T) cannot fail in a method of W.
+func c06WrapperBuiltOnlyWhen(p *Prog, pkg *packages.Package, ctx *FuncCtx, ta *ast.TypeAssertExpr) (string, bool) {
+	info := ctx.Info()
+	recv := ctx.RecvObj()
+	if recv == nil || ta.Type == nil {
+		return "", false
+	}
+	sel, ok := ast.Unparen(ta.X).(*ast.SelectorExpr)
+	if !ok || objOf(info, sel.X) != recv {
+		return "", false
+	}
+	field := sel.Sel.Name
+	wname := namedTypeName(recv.Type())
+	asserted := types.TypeString(info.TypeOf(ta.Type), nil)
+	if wname == "" {
+		return "", false
+	}
+	nLit := 0
+	allOK := true
+	p.AllFuncs(pkg, func(top *FuncCtx) {
+		for _, fc := range allCtxs(p, top) {
+			finfo := fc.Info()
+			for _, v := range fc.G.V {
+				if v.Node == nil {
+					continue
+				}
+				inspectNoLit(v.Node, func(n ast.Node) bool {
+					cl, ok := n.(*ast.CompositeLit)
+					if !ok || namedTypeName(finfo.TypeOf(cl)) != wname {
+						return true
+					}
+					nLit++
+					// the value stored in the field: through the embedded value's own literal
+					var stored types.Object
+					ast.Inspect(fc.Body, func(m ast.Node) bool {
+						if kv, ok := m.(*ast.KeyValueExpr); ok {
+							if id, ok := kv.Key.(*ast.Ident); ok && id.Name == field {
+								if o := objOf(finfo, kv.Value); o != nil {
+									stored = o
+								}
+							}
+						}
+						return true
+					})
+					good := false
+					if stored != nil {
+						for _, av := range fc.G.V {
+							as, ok := av.Node.(*ast.AssignStmt)
+							if !ok || len(as.Lhs) != 2 || len(as.Rhs) != 1 {
+								continue
+							}
+							ta2, ok := ast.Unparen(as.Rhs[0]).(*ast.TypeAssertExpr)
+							if !ok || ta2.Type == nil || types.TypeString(finfo.TypeOf(ta2.Type), nil) != asserted || objOf(finfo, ta2.X) != stored {
+								continue
+							}
+							okObj := objOf(finfo, as.Lhs[1])
+							if okObj == nil {
+								continue
+							}
+							edges := fc.TestEdges(func(e ast.Expr) bool { return objOf(finfo, e) == okObj }, WantTrue)
+							if len(edges) > 0 && fc.G.EdgeDominates(edges, v.ID) && len(fc.Defs(stored)) == 0 {
+								good = true
+							}
+						}
+					}
+					if !good {
+						allOK = false
+					}
+					return true
+				})
+			}
+		}
+	})
+	if nLit == 0 || !allOK {
+		return "", false
+	}
+	return fmt.Sprintf("every %s value (%d literal(s)) is built on the ok edge of the same assertion on the value it wraps", wname, nLit), true
 }
